@@ -257,6 +257,7 @@ def MainUpdateInView (L A M S T L' A' S' T' : Type) [DecidableEq S] [DecidableEq
     (sub old o' : Obj L A M S T), isI64 old.generation →
     beforeUpdate r .main mr sub old = .ok o' → judgeMainUpdate r.served (v.obj old) (v.obj o') = []
 
+omit [DecidableEq L'] in
 /-- Whatever the view, the only clause an accepted main-resource update can break is "bumped although nothing
     visible changed". -/
 theorem c20_view_only_spurious_bump [DecidableEq T] (r : Reg) (hw : WellShaped r) (hc : Consistent r)
@@ -264,6 +265,7 @@ theorem c20_view_only_spurious_bump [DecidableEq T] (r : Reg) (hw : WellShaped r
     (hg : isI64 old.generation) (h : beforeUpdate r .main mr sub old = .ok o') :
     judgeMainUpdate r.served (v.obj old) (v.obj o') = [] ∨
     (judgeMainUpdate r.served (v.obj old) (v.obj o') = [.mainKeep] ∧
+      changed (v.obj old) (v.obj o') = false ∧
       (o'.spec ≠ old.spec ∨ o'.annotations ≠ old.annotations) ∧ o'.generation = old.generation + 1) := by
   obtain ⟨hiff, hkeep⟩ := c20_main_update_generation r hw mr sub old o' hg h
   have hst : r.served = true → o'.status = old.status := fun hs => c20_main_update_status r hw hc mr sub old o' hs h
@@ -280,8 +282,9 @@ theorem c20_view_only_spurious_bump [DecidableEq T] (r : Reg) (hw : WellShaped r
     · right
       have hv' : (v.spec o'.spec != v.spec old.spec || v.annotations o'.annotations != v.annotations old.annotations) = false := by
         simpa using hv
-      refine ⟨?_, hch, hg1⟩
+      refine ⟨?_, hv', hch, hg1⟩
       simp [hv', hg1]
+      omega
   · left
     have h' : o'.spec = old.spec ∧ o'.annotations = old.annotations := by
       constructor
@@ -302,25 +305,10 @@ theorem c20_main_update_view_partial [DecidableEq T] (r : Reg) (hw : WellShaped 
     (hg : isI64 old.generation) (h : beforeUpdate r .main mr sub old = .ok o')
     (hf : Faithful v o' old) :
     judgeMainUpdate r.served (v.obj old) (v.obj o') = [] := by
-  rcases c20_view_only_spurious_bump r hw hc mr v sub old o' hg h with h0 | ⟨hk, hch, _⟩
+  rcases c20_view_only_spurious_bump r hw hc mr v sub old o' hg h with h0 | ⟨_, hnv, hch, _⟩
   · exact h0
   · exfalso
-    -- mainKeep was reported: the view saw no change, so by faithfulness there was none
-    have hnv : (changed (v.obj old) (v.obj o')) = false := by
-      cases hc' : changed (v.obj old) (v.obj o')
-      · rfl
-      · unfold judgeMainUpdate at hk
-        rw [hc'] at hk
-        simp only [if_true] at hk
-        unfold check at hk
-        have : ∀ (a : List Clause) (b : Bool), a ++ (if b then [] else [Clause.mainBump]) ≠ [Clause.mainKeep] := by
-          intro a b; cases b <;> cases a with
-          | nil => simp
-          | cons x xs =>
-            cases xs with
-            | nil => simp
-            | cons y ys => simp
-        exact absurd hk (this _ _)
+    -- the view saw no change, so by faithfulness there was none
     unfold changed View.obj at hnv
     simp at hnv
     rcases hch with h1 | h1
